@@ -96,6 +96,21 @@ def is_current_activity(expr, fn: FunctionInfo) -> bool:
 
 
 _CLOCK = {}
+#: other spellings of a clock read, discovered per program: calls of the getter behind the
+#: `now` property of the Time class (`time._now()`), see ``register_clock_reads``
+CLOCK_READS = set()
+
+
+def register_clock_reads(program):
+    CLOCK_READS.clear()
+    _CLOCK.clear()
+    info = program.classes.get('usim._primitives.timing.Time')
+    view = info.methods.get('now') if info else None
+    if view is None:
+        return
+    for name, method in info.methods.items():
+        if method is not view and method.node is view.node and not method.is_property:
+            CLOCK_READS.update(('time.%s()' % name, 'self.%s()' % name))
 
 
 def is_current_time(expr, fn: FunctionInfo) -> bool:
@@ -103,10 +118,23 @@ def is_current_time(expr, fn: FunctionInfo) -> bool:
     found = _CLOCK.get(key)
     if found is None:
         text = normalise_state_aliases(expand_alias(expr, fn))
-        found = text in (CURRENT_TIME, 'time.now', 'self.now')
+        found = text in (CURRENT_TIME, 'time.now', 'self.now') or text in CLOCK_READS
         _CLOCK[key] = (found, expr)  # keep the node alive: ids are reused otherwise
         return found
     return found[0]
+
+
+def is_site(node, call) -> bool:
+    """an event's node stands for the call site ``call``: the node itself, or the call a
+    ``functools.partial`` local stands for at that site"""
+    return node is call or getattr(node, 'origin_node', None) is call
+
+
+def is_clock_call(node, fn) -> bool:
+    """a call that reads the clock (the getter behind `time.now`), never cached: cheap"""
+    return bool(CLOCK_READS) and isinstance(node, ast.Call) and not node.args and \
+        not node.keywords and fn is not None and \
+        normalise_state_aliases(expand_alias(node, fn)) in CLOCK_READS
 
 
 # ----------------------------------------------------------- program queries
